@@ -1088,6 +1088,10 @@ class EffDomain(Domain):
                 for i, a in enumerate(args):
                     eng.store(t, f'[{i}]', self.iter_elems(a))
                 return self.fresh_container(e, 'list', Val({t}))
+            if name == 'map' and e.args and norm(e.args[0]) in ('np.array', 'np.copy', 'numpy.array', 'numpy.copy'):
+                # map(np.array, xs): every element is a fresh array
+                t = eng.new(eng.site(self.frame, e) + 'm', self.frame, ARR)
+                return self.fresh_container(e, 'list', Val({t}))
             if name in ('map', 'filter'):
                 out = IMMV
                 for a in args[1:]:
